@@ -570,3 +570,41 @@ func badTaintBuiltAddr(c net.Conn) {
 	a := &net.UDPAddr{IP: net.ParseIP(c.RemoteAddr().String())}
 	sink(a)
 }
+
+// ---------------------------------------------------------------- receive buffer handed to a per-message goroutine
+
+func okLoopBufPerMessage(r io.Reader, handle func([]byte)) error {
+	for {
+		var buf [512]byte
+		n, err := r.Read(buf[:])
+		if err != nil {
+			return err
+		}
+		go func() { handle(buf[:n]) }()
+	}
+}
+
+func okLoopBufCopied(r io.Reader, handle func([]byte)) error {
+	buf := make([]byte, 512)
+	for {
+		n, err := r.Read(buf)
+		if err != nil {
+			return err
+		}
+		msg := make([]byte, n)
+		copy(msg, buf[:n])
+		go handle(msg)
+	}
+}
+
+func badLoopBufShared(r io.Reader, handle func([]byte)) error {
+	buf := make([]byte, 512)
+	for {
+		n, err := r.Read(buf)
+		if err != nil {
+			return err
+		}
+		msg := buf[:n]
+		go func() { handle(msg) }()
+	}
+}
